@@ -94,8 +94,13 @@ def _canon(t, names):
     if isinstance(a, ast.Constant):
       return ('prefix', role, a.value)
     if isinstance(a, ast.BinOp) and isinstance(a.op, ast.Add) and isinstance(
-        a.left, ast.Name) and isinstance(a.right, ast.Constant):
-      return ('prefix', role, (names.get(a.left.id, a.left.id), a.right.value))
+        a.right, ast.Constant):
+      lt = core.norm(a.left)
+      if lt == 'self.state[_Function].context_name':
+        lt = 'FSCOPE'
+      elif isinstance(a.left, ast.Name):
+        lt = names.get(a.left.id, a.left.id)
+      return ('prefix', role, (lt, a.right.value))
   return ('text', core.norm(t))
 
 
@@ -140,7 +145,8 @@ def _no_overload_exception(h, guards):
     if isinstance(a, ast.Assign) and len(a.targets) == 1 and isinstance(
         a.targets[0], ast.Name) and core.norm(a.value) == 'self._overload_of(%s.op)' % p:
       names.add(a.targets[0].id)
-  return any(pol == 'T' and txt in ['%s is None' % n for n in names]
+  return any((pol == 'T' and txt in ['%s is None' % n for n in names]) or
+             (pol == 'F' and txt in ['%s is not None' % n for n in names])
              for pol, txt in guards)
 
 
